@@ -59,6 +59,8 @@ func strName(t int64) string {
 		return "chat-2"
 	case 9:
 		return ""
+	case 10:
+		return "gate-2"
 	}
 	return "s" + strconv.FormatInt(t, 10)
 }
@@ -73,6 +75,8 @@ func strTok(s string) int64 {
 		return 2
 	case "":
 		return 9
+	case "gate-2":
+		return 10
 	}
 	if strings.HasPrefix(s, "s") {
 		if v, err := strconv.ParseInt(s[1:], 10, 64); err == nil {
@@ -130,26 +134,53 @@ func valTerm(v *e2e.Val) any {
 	return "VOther"
 }
 
+// frontOf: connections with a token >= 100 are connected to the second front-end (Corr.v cfront)
+func frontOf(sid int64) int {
+	if sid >= 100 {
+		return 1
+	}
+	return 0
+}
+
+type fnet struct {
+	front int
+	id    uint32
+}
+
 type world struct {
 	n     *e2e.Node
 	conns map[int64]*e2e.Client
 	dead  map[int64]bool
 	netOf map[int64]uint32
-	tokOf map[uint32]int64
+	tokOf map[fnet]int64 // (front-end, connection id) -> token: the ids of the two front-ends coincide
 	mid   uint64
 }
 
-// the connection id the server allocated is reported as the connection's token
-func (w *world) fixNet(k string, v *e2e.Val) *e2e.Val {
+// the connection id the server allocated is reported as the connection's token; which
+// connection an id means depends on the front-end the map says it belongs to
+func (w *world) fixNet(front int, k string, v *e2e.Val) *e2e.Val {
 	if k == "_NetId" && (v.Kind == "int" || v.Kind == "num") {
-		if t, ok := w.tokOf[uint32(v.I)]; ok {
+		if t, ok := w.tokOf[fnet{front, uint32(v.I)}]; ok {
 			return &e2e.Val{Kind: v.Kind, I: t}
 		}
+		return &e2e.Val{Kind: v.Kind, I: -1}
 	}
 	return v
 }
 
-func (w *world) mapTerm(dump string) (any, error) {
+// frontOfDump: the front-end a dumped map names (_ServerId); def when it names none
+func frontOfDump(kvs []e2e.KV, def int) int {
+	for _, kv := range kvs {
+		if kv.K == "_ServerId" && kv.V.Kind == "str" {
+			if fi := e2e.FrontOf(kv.V.S); fi >= 0 {
+				return fi
+			}
+		}
+	}
+	return def
+}
+
+func (w *world) mapTerm(def int, dump string) (any, error) {
 	kvs, err := e2e.ParseDump(dump)
 	if err != nil {
 		return nil, err
@@ -159,8 +190,9 @@ func (w *world) mapTerm(dump string) (any, error) {
 		v any
 	}
 	var es []ent
+	front := frontOfDump(kvs, def)
 	for _, kv := range kvs {
-		es = append(es, ent{keyTok(kv.K), valTerm(w.fixNet(kv.K, kv.V))})
+		es = append(es, ent{keyTok(kv.K), valTerm(w.fixNet(front, kv.K, kv.V))})
 	}
 	// ascending key token
 	for i := 1; i < len(es); i++ {
@@ -210,14 +242,37 @@ func (w *world) step(o hx.T) (any, error) {
 		if w.conns[sid] != nil {
 			return "BIgnored", nil
 		}
-		cl, err := e2e.Dial(n.Addr)
+		if sid >= 100 {
+			// the second front-end's connection 100+k gets the id of the first one's connection k
+			// (when there is one, and the id is free): equal ids on different front-ends
+			id, ok := w.netOf[sid-100]
+			for s2, c2 := range w.conns {
+				if s2 >= 100 && !w.dead[s2] && c2.NetId == id {
+					ok = false
+				}
+			}
+			if !ok {
+				// otherwise an id no connection of this case has
+				id = 0
+				for _, x := range w.netOf {
+					if x > id {
+						id = x
+					}
+				}
+				id++
+			}
+			if err := n.SetNextSessionIdOn(1, id); err != nil {
+				return nil, err
+			}
+		}
+		cl, err := n.DialFront(frontOf(sid))
 		if err != nil {
 			return nil, err
 		}
 		if err := n.Sentinel(cl); err != nil {
 			return nil, err
 		}
-		w.conns[sid], w.netOf[sid], w.tokOf[cl.NetId] = cl, cl.NetId, sid
+		w.conns[sid], w.netOf[sid], w.tokOf[fnet{frontOf(sid), cl.NetId}] = cl, cl.NetId, sid
 		return "BUnit", nil
 	case "ORemove":
 		c := w.live(o.Int(0))
@@ -228,11 +283,11 @@ func (w *world) step(o hx.T) (any, error) {
 			return nil, err
 		}
 		w.dead[o.Int(0)] = true
-		view, ok := n.CloseView(c.NetId)
+		view, ok := n.CloseViewOn(c.Front, c.NetId)
 		if !ok {
 			return nil, fmt.Errorf("c10: no (or inconsistent) OnClose view for connection %d", c.NetId)
 		}
-		m, err := w.mapTerm(view)
+		m, err := w.mapTerm(c.Front, view)
 		if err != nil {
 			return nil, err
 		}
@@ -264,7 +319,7 @@ func (w *world) step(o hx.T) (any, error) {
 		if !r.Has {
 			return optTerm(false, nil), nil
 		}
-		return optTerm(true, valTerm(w.fixNet(k, r.V))), nil
+		return optTerm(true, valTerm(w.fixNet(c.Front, k, r.V))), nil
 	case "OFrontDump":
 		c := w.live(o.Int(0))
 		if c == nil {
@@ -278,7 +333,7 @@ func (w *world) step(o hx.T) (any, error) {
 		if err := json.Unmarshal(ev.Data, &r); err != nil {
 			return nil, err
 		}
-		return w.mapTerm(r.Dump)
+		return w.mapTerm(c.Front, r.Dump)
 	case "OForward":
 		sid := o.Int(0)
 		c := w.live(sid)
@@ -297,7 +352,7 @@ func (w *world) step(o hx.T) (any, error) {
 			return nil, err
 		}
 		net := int64(-1)
-		if t, ok := w.tokOf[r.NetId]; ok {
+		if t, ok := w.tokOf[fnet{e2e.FrontOf(r.Front), r.NetId}]; ok {
 			net = t
 		}
 		return hx.C("BFwd", e2e.InstOf(r.Svc), hx.C("VStr", strTok(r.Uid)), hx.C("VStr", strTok(r.Front)), net), nil
@@ -319,7 +374,7 @@ func (w *world) step(o hx.T) (any, error) {
 			return nil, err
 		}
 		net := int64(-1)
-		if t, ok := w.tokOf[r.NetId]; ok {
+		if t, ok := w.tokOf[fnet{e2e.FrontOf(r.Front), r.NetId}]; ok {
 			net = t
 		}
 		// the handler stores the session after answering: let it finish that turn
@@ -327,6 +382,24 @@ func (w *world) step(o hx.T) (any, error) {
 			return nil, err
 		}
 		return hx.C("BFwd", e2e.InstOf(r.Svc), hx.C("VStr", strTok(r.Uid)), hx.C("VStr", strTok(r.Front)), net), nil
+	case "OForwardKeepN":
+		sid := o.Int(0)
+		c := w.live(sid)
+		if c == nil {
+			return "BIgnored", nil
+		}
+		pl, _ := json.Marshal(map[string]any{"T": 1, "H": o.Int(1)})
+		if err := c.Notify("room.h.keep", pl); err != nil {
+			return nil, err
+		}
+		// nothing is answered: the notification has been handled when the system is quiet
+		if err := n.Drain([]*e2e.Client{c}); err != nil {
+			return nil, err
+		}
+		if !n.HasBack(o.Int(1)) {
+			return nil, fmt.Errorf("c10: the notified handler did not run")
+		}
+		return "BUnit", nil
 	case "OBackNew":
 		b, sid := o.Int(0), o.Int(1)
 		if n.HasBack(b) {
@@ -337,7 +410,7 @@ func (w *world) step(o hx.T) (any, error) {
 			return "BIgnored", nil // the connection never existed: there is no id to create it for
 		}
 		inst := 1 + ((b%3)+3)%3
-		if err := n.BackNew(b, inst, net); err != nil {
+		if err := n.BackNewOn(b, inst, frontOf(sid), net); err != nil {
 			return nil, err
 		}
 		return "BUnit", nil
@@ -358,7 +431,7 @@ func (w *world) step(o hx.T) (any, error) {
 		if !has {
 			return optTerm(false, nil), nil
 		}
-		return optTerm(true, valTerm(w.fixNet(k, v))), nil
+		return optTerm(true, valTerm(w.fixNet(w.backFront(o.Int(0)), k, v))), nil
 	case "OBackDump":
 		if !n.HasBack(o.Int(0)) {
 			return "BIgnored", nil
@@ -367,7 +440,7 @@ func (w *world) step(o hx.T) (any, error) {
 		if err != nil {
 			return nil, err
 		}
-		return w.mapTerm(d)
+		return w.mapTerm(w.backFront(o.Int(0)), d)
 	case "OBackScript":
 		if !n.HasBack(o.Int(0)) {
 			return "BIgnored", nil
@@ -391,10 +464,11 @@ func (w *world) step(o hx.T) (any, error) {
 			}
 		}
 		net := n.BackNetId(o.Int(0))
+		fi := w.backFront(o.Int(0))
 		wasLive := false
 		if kicks {
 			var e error
-			if wasLive, e = n.HasSession(net); e != nil {
+			if wasLive, e = n.HasSessionOn(fi, net); e != nil {
 				return nil, e
 			}
 		}
@@ -408,17 +482,17 @@ func (w *world) step(o hx.T) (any, error) {
 		}
 		if kicks && wasLive {
 			// the connection was kicked: it is removed after the script's messages
-			if err := n.WaitRemoved(net); err != nil {
+			if err := n.WaitRemovedOn(fi, net); err != nil {
 				return nil, err
 			}
-			if t, ok := w.tokOf[net]; ok {
+			if t, ok := w.tokOf[fnet{fi, net}]; ok {
 				w.dead[t] = true
 			}
-			view, ok := n.CloseView(net)
+			view, ok := n.CloseViewOn(fi, net)
 			if !ok {
 				return nil, fmt.Errorf("c10: no (or inconsistent) OnClose view for connection %d", net)
 			}
-			m, err := w.mapTerm(view)
+			m, err := w.mapTerm(fi, view)
 			if err != nil {
 				return nil, err
 			}
@@ -446,17 +520,35 @@ func (w *world) step(o hx.T) (any, error) {
 	return nil, fmt.Errorf("c10: unknown op %s", o.Name)
 }
 
+// backFront: the front-end a handle's session names (front 0 when it names none - whatever the
+// session then does goes nowhere, which the observations show)
+func (w *world) backFront(h int64) int {
+	if fi := e2e.FrontOf(w.n.BackFront(h)); fi >= 0 {
+		return fi
+	}
+	return 0
+}
+
 type broken struct{ err error }
 
 func (b *broken) Error() string { return b.err.Error() }
 
 // Exec runs one case.
 func Exec(n *e2e.Node, ops []hx.T) (obs []any, nontrivial bool, err error) {
-	w := &world{n: n, conns: map[int64]*e2e.Client{}, dead: map[int64]bool{}, netOf: map[int64]uint32{}, tokOf: map[uint32]int64{}, mid: 100}
+	w := &world{n: n, conns: map[int64]*e2e.Client{}, dead: map[int64]bool{}, netOf: map[int64]uint32{}, tokOf: map[fnet]int64{}, mid: 100}
 	defer func() {
+		// the front-ends must have removed every session of this case before the next one starts: the
+		// second front-end's connection ids are positioned explicitly and may be used again at once
 		for sid, c := range w.conns {
 			if !w.dead[sid] {
 				c.Close()
+			}
+		}
+		for sid, c := range w.conns {
+			if !w.dead[sid] {
+				if e := n.CloseAndWait(c); e != nil && err == nil {
+					err = e
+				}
 			}
 		}
 		n.ClearBacks()
